@@ -282,6 +282,48 @@ func (m *Model) RunTokPos(s *Sink, rule string) {
 				} else {
 					s.OK(rule, key, m.InstrPos(c), "every path to the call passes tokenBegins (directly or through a callee that begins the token before reading)")
 				}
+				// (e) newToken ends a token on the PREVIOUS character (unless EOF): that is the token's last character only
+				// if the token's characters were read. A path to newToken on which nothing can have been read ends the
+				// token before its start — on the previous line when the token starts a line.
+				if kc, isK := c.Call.Args[1].(*ssa.Const); !isK || kc.Value == nil || tokenConstNames[kc.Int64()] != "EOF" {
+					k2 := fmt.Sprintf("%s|newToken(%s) ends on a character of the token", fnKey(fn), tt)
+					mayRead := m.newPassInfo(func(ci ssa.CallInstruction) bool {
+						sc := ci.Common().StaticCallee()
+						return sc != nil && (sc == readChar || consumerCI.may[sc])
+					}, func(*ssa.Call) bool { return false }, lexFns, nil)
+					nothingRead := mayRead.pathAvoiding(fn, fn.Blocks[0], 0, func(x *ssa.BasicBlock) bool { return x == target && !mayRead.blockConsumesBefore(x, idx) }, nil)
+					// the caller may have read the token's text before handing over (a helper that only builds the token)
+					if nothingRead && fn != nil {
+						if node := m.CG.Nodes[fn]; node != nil && len(node.In) > 0 {
+							all := true
+							for _, e := range node.In {
+								cf := e.Caller.Func
+								if cf == fn || cf.Blocks == nil {
+									continue
+								}
+								sb, si := e.Site.Block(), -1
+								for j, x := range sb.Instrs {
+									if x == ssa.Instruction(e.Site) {
+										si = j
+									}
+								}
+								if mayRead.pathAvoiding(cf, cf.Blocks[0], 0, func(x *ssa.BasicBlock) bool { return x == sb && !mayRead.blockConsumesBefore(x, si) }, nil) {
+									all = false
+								}
+							}
+							if all {
+								nothingRead = false
+							}
+						}
+					}
+					if nothingRead && m.newTokenUnread {
+						s.OK(rule, k2, m.InstrPos(c), "a path reads nothing before this call, and newToken ends such a token on the current character (the position recorded by tokenBegins is still the current one)")
+					} else if nothingRead {
+						s.Violation(rule, k2, m.InstrPos(c), "%s can reach newToken(%s) without any character having been read since the token began: newToken takes the token's end from the previous character, so the token ends before it starts — an error about it is reported on the previous line when it is the first character of a line, and its range contains no position", fnKey(fn), tt)
+					} else {
+						s.OK(rule, k2, m.InstrPos(c), "every path to the call passes a call that reads input (readChar or a reader)")
+					}
+				}
 			}
 		}
 	}
@@ -437,26 +479,50 @@ func (m *Model) checkNewToken(s *Sink, rule string, fn *ssa.Function) {
 		}
 		phi, isPhi := v.(*ssa.Phi)
 		okEnd := false
-		if isPhi && len(phi.Edges) == 2 {
+		if isPhi && len(phi.Edges) >= 2 {
 			okEnd = true
 			for i, e := range phi.Edges {
 				pred := phi.Block().Preds[i]
-				// on which edge do we know tokType != EOF ?
-				nonEOF := false
+				// what is known on this edge: tokType != EOF / == EOF; nothing was read since the token began
+				// (the current position still is the recorded start)
+				nonEOF, isEOF := false, false
+				samePos := map[string]bool{}
 				for _, fc := range expandFacts(factsOnEdge(pred, phi.Block())) {
-					if bo, isBo := fc.Cond.(*ssa.BinOp); isBo {
-						if k, isK := bo.Y.(*ssa.Const); isK && k.Value != nil && k.Int64() == eofVal {
-							if (bo.Op == token.NEQ) == fc.Holds {
-								nonEOF = true
+					bo, isBo := fc.Cond.(*ssa.BinOp)
+					if !isBo || (bo.Op != token.NEQ && bo.Op != token.EQL) {
+						continue
+					}
+					if k, isK := bo.Y.(*ssa.Const); isK && k.Value != nil && k.Int64() == eofVal {
+						if (bo.Op == token.NEQ) == fc.Holds {
+							nonEOF = true
+						} else {
+							isEOF = true
+						}
+						continue
+					}
+					if (bo.Op == token.EQL) == fc.Holds {
+						a, b := fieldPathOf(bo.X), fieldPathOf(bo.Y)
+						for _, pr := range [][2]string{{".col", ".startCol"}, {".line", ".startLine"}} {
+							if (a == pr[0] && b == pr[1]) || (a == pr[1] && b == pr[0]) {
+								samePos[pr[0]] = true
 							}
 						}
 					}
 				}
-				exp := w[1]
-				if nonEOF {
-					exp = w[0]
-				}
-				if fieldPathOf(e) != exp {
+				unread := samePos[".col"] && samePos[".line"]
+				switch fieldPathOf(e) {
+				case w[0]: // the previous character: only for tokens that are not EOF
+					if !nonEOF {
+						okEnd = false
+					}
+				case w[1]: // the current character: EOF, or a token that has read nothing (it ends where it starts)
+					if !isEOF && !unread && nonEOF {
+						okEnd = false
+					}
+					if unread {
+						m.newTokenUnread = true
+					}
+				default:
 					okEnd = false
 				}
 			}
